@@ -306,6 +306,23 @@ def irgen_case(seed, idx, ptr_size=8):
     return build
 
 
+def cgen_case(seed, idx, avoid=()):
+    """C-derived module: vlib.cgen program through the real C front-end."""
+    def build():
+        import io
+        from ppci import api
+        from vlib import cgen
+        r = rng(seed, "OPTC", idx)
+        src, info = cgen.gen_program(r, {"avoid": avoid, "size": r.choice([10, 16, 24])})
+        m = api.c_to_ir(io.StringIO(src), "x86_64")
+        argvecs = {"entry": cgen.gen_args(r, 3)}
+        for f in m.functions:
+            if f.name != "entry" and all(p.ty.is_integer for p in f.arguments):
+                argvecs[f.name] = irgen.gen_args(r, m, f.name, 2)
+        return m, argvecs, ["c:" + t for t in info["tags"]], 8
+    return build
+
+
 def run_shard(spec, prop):
     """Shared by checks/c02.py and checks/c03.py."""
     mon = Monitor()
@@ -317,9 +334,14 @@ def run_shard(spec, prop):
         if only is not None and idx != only:
             continue
         r = rng(spec["seed"], "OPTCFG", idx)
-        build = irgen_case(spec["seed"], idx)
-        case = {"id": "irgen/%s/%d" % (spec["seed"], idx), "source": "irgen", "seed": spec["seed"], "index": idx}
-        mon.count("origin", "irgen")
+        if idx % 4 == 3:
+            build = cgen_case(spec["seed"], idx, spec.get("avoid", ()))
+            case = {"id": "cgen/%s/%d" % (spec["seed"], idx), "source": "cgen", "seed": spec["seed"], "index": idx}
+            mon.count("origin", "cgen")
+        else:
+            build = irgen_case(spec["seed"], idx)
+            case = {"id": "irgen/%s/%d" % (spec["seed"], idx), "source": "irgen", "seed": spec["seed"], "index": idx}
+            mon.count("origin", "irgen")
         run_case(mon, classes, ref, build, case, r, tier)
         if len(mon.samples) < 2 and idx % 7 == 0:
             mon.samples.append({"case": case["id"], "ir": module_text(build()[0])[:3000]})
